@@ -1121,8 +1121,11 @@ impl Store {
         if let Some(paths) = self.locked_keys.remove(&client_id) {
             let mut out = vec![];
             for path in paths {
-                let client_id = self.unlock(client_id, &path).await.ok().flatten();
-                out.push((path.join("/"), client_id));
+                // only locks this client actually released changed hands; a key it was merely
+                // waiting for (or had released before) still belongs to whoever holds it
+                if let Ok(new_holder) = self.unlock(client_id, &path).await {
+                    out.push((path.join("/"), new_holder));
+                }
             }
             Some(out)
         } else {
